@@ -19,7 +19,7 @@
      payload  = bytes of the error message (empty when nil) *)
 From Verif Require Import Common.Base Generated.C05BackoffValidate C05.Model.
 From Coq Require Import String Ascii.
-Open Scope Z_scope.
+Local Open Scope Z_scope.
 
 Definition wire_case : Type :=
   list Z * (list Z * (list (Z * list (Z * list Z)) * (list (list Z * Z) * (list Z * list Z)))).
